@@ -10,6 +10,14 @@
 #include "ECPrivateKey.h"
 #include "ECParameters.h"
 #include "AsymmetricKeyPair.h"
+#include "EDPublicKey.h"
+#include "EDPrivateKey.h"
+#include "DHPublicKey.h"
+#include "DHPrivateKey.h"
+#include "DHParameters.h"
+#ifndef KIND
+#define KIND 1      /* 1 EC, 2 EdDSA, 3 DH */
+#endif
 extern "C" bool det_token_encrypt(Token*, const ByteString& in, ByteString& out) { store_log.encrypts++; out.resize(in.size() + 1); out[0] = ENC_TAG; for (size_t i = 0; i < in.size(); i++) out[i + 1] = in.const_byte_str()[i]; return true; }
 static SymObject env_newobj2;
 static unsigned long nCreate, nGen; static bool createOk[2]; static CK_OBJECT_HANDLE createdHandle[2]; static int createOp[2]; static CK_ULONG createClass[2], createKeyType[2]; static bool createTok[2], createPriv[2];
@@ -33,9 +41,29 @@ extern "C" CK_RV sink_create(SoftHSM* h, CK_SESSION_HANDLE hs, CK_ATTRIBUTE_PTR 
 static int genWhich; static CK_BBOOL gPubTok, gPubPriv, gPrivTok, gPrivPriv;
 #define GP_SINK(name, w) extern "C" CK_RV name(SoftHSM*, CK_SESSION_HANDLE, CK_ATTRIBUTE_PTR, CK_ULONG, CK_ATTRIBUTE_PTR, CK_ULONG, CK_OBJECT_HANDLE_PTR, CK_OBJECT_HANDLE_PTR, CK_BBOOL a, CK_BBOOL b, CK_BBOOL c, CK_BBOOL d) { nGen++; genWhich = w; gPubTok = a; gPubPriv = b; gPrivTok = c; gPrivPriv = d; return nondet_bool() ? CKR_OK : CKR_FUNCTION_FAILED; }
 GP_SINK(sink_genRSA, 1) GP_SINK(sink_genDSA, 2) GP_SINK(sink_genDH, 3) GP_SINK(sink_genEC, 4) GP_SINK(sink_genED, 5) GP_SINK(sink_genGOST, 6)    /* generateGOST exists without WITH_GOST but must be unreachable */
-class MEcPub : public ECPublicKey { public: virtual unsigned long getOrderLength() const { return 2; } };
-class MEcPriv : public ECPrivateKey { public: virtual unsigned long getOrderLength() const { return 2; } virtual ByteString PKCS8Encode() { return ByteString(); } virtual bool PKCS8Decode(const ByteString&) { return false; } };
-class MKp : public AsymmetricKeyPair { public: MEcPub pub; MEcPriv priv;
+#if KIND == 1
+class MPub : public ECPublicKey { public: virtual unsigned long getOrderLength() const { return 2; } };
+class MPriv : public ECPrivateKey { public: virtual unsigned long getOrderLength() const { return 2; } virtual ByteString PKCS8Encode() { return ByteString(); } virtual bool PKCS8Decode(const ByteString&) { return false; } };
+#define GEN_CALL generateEC
+#define GEN_MECH CKM_EC_KEY_PAIR_GEN
+#define GEN_KT CKK_EC
+#define PARAM_ATTR CKA_EC_PARAMS
+#elif KIND == 2
+class MPub : public EDPublicKey { public: virtual unsigned long getOrderLength() const { return 2; } };
+class MPriv : public EDPrivateKey { public: virtual unsigned long getOrderLength() const { return 2; } virtual ByteString PKCS8Encode() { return ByteString(); } virtual bool PKCS8Decode(const ByteString&) { return false; } };
+#define GEN_CALL generateED
+#define GEN_MECH CKM_EC_EDWARDS_KEY_PAIR_GEN
+#define GEN_KT CKK_EC_EDWARDS
+#define PARAM_ATTR CKA_EC_PARAMS
+#else
+class MPub : public DHPublicKey { public: };
+class MPriv : public DHPrivateKey { public: virtual ByteString PKCS8Encode() { return ByteString(); } virtual bool PKCS8Decode(const ByteString&) { return false; } };
+#define GEN_CALL generateDH
+#define GEN_MECH CKM_DH_PKCS_KEY_PAIR_GEN
+#define GEN_KT CKK_DH
+#define PARAM_ATTR CKA_PRIME
+#endif
+class MKp : public AsymmetricKeyPair { public: MPub pub; MPriv priv;
 	virtual PublicKey* getPublicKey() { return &pub; } virtual const PublicKey* getConstPublicKey() const { return &pub; }
 	virtual PrivateKey* getPrivateKey() { return &priv; } virtual const PrivateKey* getConstPrivateKey() const { return &priv; } };
 static MKp kp;
@@ -51,7 +79,7 @@ extern "C" void harness(void)
 	static CK_BYTE ecp[2]; ecp[0] = nondet_uchar(); ecp[1] = nondet_uchar();
 	static CK_BBOOL tSens, tExtr, tTokA, tPrivA, tTokB, tPrivB; tSens = nondet_uchar(); tExtr = nondet_uchar(); tTokA = nondet_uchar(); tPrivA = nondet_uchar(); tTokB = nondet_uchar(); tPrivB = nondet_uchar();
 	static CK_ATTRIBUTE pubT[2], privT[3];
-	pubT[0].type = CKA_EC_PARAMS; pubT[0].pValue = ecp; pubT[0].ulValueLen = 2;
+	pubT[0].type = PARAM_ATTR; pubT[0].pValue = ecp; pubT[0].ulValueLen = 2;
 	privT[0].type = CKA_SENSITIVE; privT[0].pValue = &tSens; privT[0].ulValueLen = 1; privT[1].type = CKA_EXTRACTABLE; privT[1].pValue = &tExtr; privT[1].ulValueLen = 1;
 #if GEN == 0
 	bool aTok = nondet_bool(), bTok = nondet_bool();
@@ -77,19 +105,36 @@ extern "C" void harness(void)
 #else
 	model_keypair = &kp;
 	unsigned char q0 = nondet_uchar(), q1 = nondet_uchar(), d0 = nondet_uchar(), d1 = nondet_uchar();
-	{ ByteString q; q.resize(2); q[0] = q0; q[1] = q1; kp.pub.setQ(q); ByteString d; d.resize(2); d[0] = d0; d[1] = d1; kp.priv.setD(d); ByteString e; e.resize(2); e[0] = ecp[0]; e[1] = ecp[1]; kp.pub.setEC(e); kp.priv.setEC(e); }
+	{ ByteString q; q.resize(2); q[0] = q0; q[1] = q1; ByteString d; d.resize(2); d[0] = d0; d[1] = d1; ByteString e; e.resize(2); e[0] = ecp[0]; e[1] = ecp[1];
+#if KIND == 1
+	  kp.pub.setQ(q); kp.priv.setD(d); kp.pub.setEC(e); kp.priv.setEC(e);
+#elif KIND == 2
+	  kp.pub.setA(q); kp.priv.setK(d); kp.pub.setEC(e); kp.priv.setEC(e);
+#else
+	  kp.pub.setY(q); kp.priv.setX(d); kp.pub.setP(e); kp.priv.setP(e); kp.pub.setG(e); kp.priv.setG(e);
+#endif
+	}
+#if KIND == 3
+	static CK_ATTRIBUTE pubDH[2]; pubDH[0] = pubT[0]; pubDH[1].type = CKA_BASE; pubDH[1].pValue = ecp; pubDH[1].ulValueLen = 2;
+#endif
 	CK_BBOOL pubTok = nondet_bool(), pubPriv = nondet_bool(), privTok = nondet_bool(), privPriv = nondet_bool();
 	CK_ULONG nPub = nondet_uchar() & 1, nPriv = nondet_uchar() % 3;
-	CK_RV rv = hsm->generateEC(hS, pubT, nPub, privT, nPriv, &hPub, &hPriv, pubTok, pubPriv, privTok, privPriv);
+#if KIND == 3
+	if (nPub) nPub = 2;
+	CK_RV rv = hsm->GEN_CALL(hS, pubDH, nPub, privT, nPriv, &hPub, &hPriv, pubTok, pubPriv, privTok, privPriv);
+	if (nPub) nPub = 1;
+#else
+	CK_RV rv = hsm->GEN_CALL(hS, pubT, nPub, privT, nPriv, &hPub, &hPriv, pubTok, pubPriv, privTok, privPriv);
+#endif
 	SymObject& A = env_newobj; SymObject& B = env_newobj2;
-	if (nCreate >= 1) { vassert(hS == env.hSession && nPub == 1 && createOp[0] == OBJECT_OP_GENERATE && createClass[0] == CKO_PUBLIC_KEY && createKeyType[0] == CKK_EC && createTok[0] == (pubTok != 0) && createPriv[0] == (pubPriv != 0)); vreach(); }
-	if (nCreate >= 2) { vassert(nCreate == 2 && createOk[0] && createOp[1] == OBJECT_OP_GENERATE && createClass[1] == CKO_PRIVATE_KEY && createKeyType[1] == CKK_EC && createTok[1] == (privTok != 0) && createPriv[1] == (privPriv != 0)); vreach(); }
+	if (nCreate >= 1) { vassert(hS == env.hSession && nPub == 1 && createOp[0] == OBJECT_OP_GENERATE && createClass[0] == CKO_PUBLIC_KEY && createKeyType[0] == GEN_KT && createTok[0] == (pubTok != 0) && createPriv[0] == (pubPriv != 0)); vreach(); }
+	if (nCreate >= 2) { vassert(nCreate == 2 && createOk[0] && createOp[1] == OBJECT_OP_GENERATE && createClass[1] == CKO_PRIVATE_KEY && createKeyType[1] == GEN_KT && createTok[1] == (privTok != 0) && createPriv[1] == (privPriv != 0)); vreach(); }
 	if (rv == CKR_OK)
 	{
 		vassert(nCreate == 2 && createOk[0] && createOk[1] && hPub == createdHandle[0] && hPriv == createdHandle[1] && env.hm->getObject(hPub) == &A && env.hm->getObject(hPriv) == &B && !A.destroyed && !B.destroyed);
 		vassert(A.nStart == 1 && A.nCommit == 1 && A.nAbort == 0 && B.nStart == 1 && B.nCommit == 1 && B.nAbort == 0);
-		vassert(A.has_LOCAL && A.b_LOCAL && A.has_KEY_GEN_MECHANISM && A.u_KEY_GEN_MECHANISM == CKM_EC_KEY_PAIR_GEN);
-		vassert(B.has_LOCAL && B.b_LOCAL && B.has_KEY_GEN_MECHANISM && B.u_KEY_GEN_MECHANISM == CKM_EC_KEY_PAIR_GEN);
+		vassert(A.has_LOCAL && A.b_LOCAL && A.has_KEY_GEN_MECHANISM && A.u_KEY_GEN_MECHANISM == GEN_MECH);
+		vassert(B.has_LOCAL && B.b_LOCAL && B.has_KEY_GEN_MECHANISM && B.u_KEY_GEN_MECHANISM == GEN_MECH);
 		vassert(B.has_ALWAYS_SENSITIVE && B.b_ALWAYS_SENSITIVE == B.b_SENSITIVE && B.has_NEVER_EXTRACTABLE && B.b_NEVER_EXTRACTABLE == !B.b_EXTRACTABLE);
 		size_t off = privPriv ? 1 : 0;                                                       // C06: the private value is stored encrypted when the object is private
 		vassert(B.has_VALUE && B.s_VALUE.size() == 2 + off && B.s_VALUE[off] == d0 && B.s_VALUE[off + 1] == d1); if (privPriv) vassert(B.s_VALUE[0] == ENC_TAG);
